@@ -119,7 +119,7 @@ def run(ctx):
             if "panic" in r:
                 raise Inconclusive(f"scan panicked: {r}")
             texts = {ws.abs(rel): t for rel, t in ws.files.items() if rel.endswith(".py")}
-            steps = hist.gen_history(ws, ctx.rng, ctx.rng.randint(2, max_steps))
+            steps = hist.gen_history(ws, ctx.rng, ctx.rng.randint(2, max_steps), parses=lambda t: vh.call(op="parses", text=t)["ok"])
             where = ["scan"]
             snap = vh.call(op="snapshot", db=db)
             check_pairs(ctx, snap, texts, where, root, ws.files)
